@@ -315,8 +315,22 @@ BADWORDS = {
     'size': ['k', 'x', '@', '%'], 'types': ['x', 'q', 'Z', '@'], 'perm': ['q+r', '@', 'x', '%644', '9'],
     'format': ["'%q'", '%', "'%{nope}'", "'%q %p'"],
 }
+def long_bad_words():
+    """Words invalid from their first character whose UTF-8 length passes 64, 128, 256 with a
+    multi-byte character straddling every byte offset near those thresholds."""
+    out = []
+    for base in (64, 128, 256):
+        for lead in range(base - 4, base + 1):
+            for ch in ('é', '€', '\U0001f600'):
+                out.append('q' * lead + ch + 'zz')
+    out.append('q' * 300)
+    out.append('€' * 22)
+    out.append('qé' * 40)
+    return out
+
+LONG_BAD = long_bad_words()
 for _k in ('time', 'cmp32', 'cmp64', 'u32', 'size', 'types', 'perm'):
-    BADWORDS[_k] = BADWORDS[_k] + ["'abc def'", '"x y"', "'a)b'", '"q\tr"']
+    BADWORDS[_k] = BADWORDS[_k] + ["'abc def'", '"x y"', "'a)b'", '"q\tr"'] + ['qq', 'xyz', 'xy9', 'xyz,f', 'zzzz', 'Q_', 'qé', 'é', '€uro', 'q,q'] + LONG_BAD
 VALID_PRIMS = ['-true', '-name a', '-uid 5', '-type f', '-size +1k', '-print', '-empty']
 
 
@@ -351,7 +365,7 @@ def gen_errors(tier, rnd):
     for _ in range(5000 if tier == 'quick' else 50000):
         n = rnd.randint(0, 4)
         ws = [rnd.choice(VALID_PRIMS) for _ in range(n)]
-        w = rnd.choice(['bogus', '-zzz', '@@', 'foo.bar', '"abc"', "'d.e'", '-Name', '#', 'é', '--x'])
+        w = rnd.choice(['bogus', '-zzz', '@@', 'foo.bar', '"abc"', "'d.e'", '-Name', '#', 'é', '--x'] + ['-' + x for x in LONG_BAD[::4]] + LONG_BAD[1::6])
         pos = rnd.randint(0, n)
         ws.insert(pos, w)
         word = w[1:-1] if w[0] in '\'"' else w
@@ -639,6 +653,11 @@ def gen_totality(tier, rnd):
     for s in ['-maxdepth 3', '-mindepth 3', '-perm 77777', '-perm 77777777777', "-printf '\\777777'", 'nope', '-size 18446744073709551615w',
               '-perm 0777x', '-nouser', '-fprint', '-threads', "-name 'a\"b'", '-name a\\', "-printf '\\c'", "-printf '~a'", '-print-file-fid -fprint x']:
         add(s)
+    # long offending words (error rendering must not depend on where a byte threshold falls in the word)
+    for w in LONG_BAD:
+        for tmpl in ['-uid %s', '-%s', '%s', '-size %s', '-perm %s', '-name ok -type %s', "-size '%s tail'", '-mtime +%s', '-threads %s', '-true -o ( -gid %s )',
+                     "-printf '%%%s'", '-name x -fprintf %s', '-xattr-match %s']:
+            add(tmpl % w)
     # every Unicode class (1..4 UTF-8 bytes; C0, DEL and C1 controls; separators; noncharacters) at every string site
     classes = ['\x01', '\x08', '\x0b', '\x1f', '\x7f', '\x80', '\x85', '\x9f', '\xa0', 'é', '\u0378', '\u2028', '\ufeff', '\uffff', '\U0001f600', '\U0010ffff']
     sites = ['-name %s', '-iname %s', '-path %s', '-ipath %s', '-pool %s', '-xattr %s', '-xattr-match %s v', '-xattr-match k %s', '-fprint %s', '-fprint0 %s',
